@@ -709,6 +709,100 @@ class KickMapApplyTo(Contract):
                 ('ongrid', {'C15', 'C17'}, And(px >= 0, px <= n1, py >= 0, py <= n1))]
 
 
+# =========================================================================== U4b SourceMap::applyToAll
+def U(name, arity):
+    return z3.Function('spec_' + name, *([z3.RealSort()] * (arity + 1)))
+
+
+def _apply_to_handler(ex, n, st, objn, argn, this_override=None):
+    from vf.vcg import LElem, StructV
+    """the virtual applyTo(pos) under its abstract contract: pos becomes (TX(pos), TY(pos)) for one fixed pair of functions (the
+    final overriders are under contract on their own: KickMapApplyTo, FokkerPlanckApplyTo; which one runs: mainspec.MapDispatch);
+    every call is counted and the index it was made on is recorded"""
+    l = ex.lv(argn[0], st)
+    v = ex.load(l, st)
+    if not isinstance(v, StructV) or set(v.fields) != {'x', 'y'}:
+        raise ExtractionError(f'{ex.unit}: applyTo() on something that is not a position (line {ex.curline})')
+    FL = v.fields['x'].ct
+    TX, TY = U('applyTo.x', 2), U('applyTo.y', 2)
+    nv = StructV(v.cls, {'x': RealV(TX(v.fields['x'].t, v.fields['y'].t), FL), 'y': RealV(TY(v.fields['x'].t, v.fields['y'].t), FL)})
+    ex.store(l, nv, st)
+    LONG = parse_type_str('long')
+    c = st.scal['ghost.applyto.calls']
+    st.scal['ghost.applyto.calls'] = IntV(c.t + 1, LONG)
+    ex.logw(('s', 'ghost.applyto.calls'))
+    # a call on element g of the caller's list is a hit; a call on anything else (a copy, another list) moves no tracked particle
+    plist = getattr(ex, 'applyto_list', None)
+    hit = And(l.idx == ex.ghosts['g']) if isinstance(l, LElem) and not l.leaf and plist is not None and l.region == plist else z3.BoolVal(False)
+    h = st.scal['ghost.applyto.hits']
+    st.scal['ghost.applyto.hits'] = IntV(h.t + If(hit, I(1), I(0)), LONG)
+    ex.logw(('s', 'ghost.applyto.hits'))
+    return VoidV()
+
+
+class SourceMapApplyToAll(Contract):
+    """applyToAll(particles): every tracked particle is moved by this map's applyTo exactly once, in place; the list keeps its
+    length and no particle is moved twice or skipped (C15: the tracked particles follow the same maps as the density, one map
+    application per step each -- main calls applyToAll once per map and step, contract mainloop.MainLoop)"""
+    name = 'vfps::SourceMap::applyToAll'
+    tu = 'src/SM/SourceMap.cpp'
+    params = ['particles']
+    tags = {'C15', 'C17'}
+    ghosts = {'g': 'int'}
+    replay = lambda self, o, model, pid: {'harness': 'sm_replay', 'runs': [['trackall', N_, it_, ax_, np_, 1] for N_ in (32,) for it_ in (2, 4) for ax_ in (0, 1) for np_ in (1, 2, 7)]}
+
+    def setup(self, cx):
+        LONG = parse_type_str('long')
+        cx.st.scal['ghost.applyto.calls'] = IntV(I(0), LONG)
+        cx.st.scal['ghost.applyto.hits'] = IntV(I(0), LONG)
+        cx.ex.applyto_list = cx.arg('particles').name
+
+    def requires(self, cx):
+        return []
+
+    def assigns(self, cx):
+        p = cx.arg('particles').name
+        return [('r', p), ('s', 'ghost.*')]
+
+    @property
+    def calls(self):
+        return {'applyTo': _apply_to_handler}
+
+    def _moved(self, cx, g):
+        p = cx.arg('particles').name
+        TX, TY = U('applyTo.x', 2), U('applyTo.y', 2)
+        ox, oy = cx.old.sel(p, g, 'x'), cx.old.sel(p, g, 'y')
+        return And(cx.sel(p, g, 'x') == TX(ox, oy), cx.sel(p, g, 'y') == TY(ox, oy))
+
+    def ensures(self, cx):
+        p = cx.arg('particles').name
+        g = cx.g('g')
+        n = cx.len(p)
+        calls = cx.st.scal['ghost.applyto.calls'].t
+        hits = cx.st.scal['ghost.applyto.hits'].t
+        return [('length_kept', {'C15', 'C17'}, n == cx.old.len(p)),
+                ('one_call_per_particle', {'C15'}, calls == n),
+                ('each_particle_moved_exactly_once', {'C15'}, Implies(And(g >= 0, g < n), And(hits == 1, self._moved(cx, g)))),
+                ('nothing_outside_the_list', {'C17'}, Implies(Or(g < 0, g >= n), hits == 0))]
+
+    def _inv(self, cx):
+        p = cx.arg('particles').name
+        g = cx.g('g')
+        i = cx.range_index(1)
+        calls = cx.st.scal['ghost.applyto.calls'].t
+        hits = cx.st.scal['ghost.applyto.hits'].t
+        ox, oy = cx.old.sel(p, g, 'x'), cx.old.sel(p, g, 'y')
+        return [('range', And(i >= 0, i <= cx.len(p))), ('len', cx.len(p) == cx.old.len(p)), ('calls', calls == i),
+                ('done', Implies(And(g >= 0, g < i), And(hits == 1, self._moved(cx, g)))),
+                ('todo', Implies(Not(And(g >= 0, g < i)), And(hits == 0, cx.sel(p, g, 'x') == ox, cx.sel(p, g, 'y') == oy)))]
+
+    @property
+    def loops(self):
+        l = LoopSpec(inv=self._inv)
+        l.split = lambda cx, cxb: [('cur', cx.g('g') == cxb.range_index(1)), ('other', Not(cx.g('g') == cxb.range_index(1)))]
+        return {'particle#0': l}
+
+
 # =========================================================================== U8 FokkerPlanckMap ctor
 def fp_flags(fptype):
     damp = And(fptype != 0, fptype != 2)      # not none, not diffusion_only
